@@ -16,7 +16,8 @@ RULE = ("(a) animations built through KeyframeAnimation::SetTimestamps / AddKeyf
         "or two tracks removed again with PointCloud::DeleteAttribute before encoding (non-contiguous ids), the expert "
         "options KeyframeAnimationEncoder takes through EncoderOptions (use_built_in_attribute_compression off/on, "
         "symbol_encoding_method), tracks that rest and then move (2..16 components, int8..int32 and quantized floats, large "
-        "corrections only in late frames, raw storage in 60 %), and object-reuse histories (ONE encoder and ONE decoder "
+        "corrections only in late frames, raw storage in 60 %), long int32 step tracks whose delta histogram puts one symbol "
+        "exactly on a size-class boundary of the rANS probability table, and object-reuse histories (ONE encoder and ONE decoder "
         "object for 2..3 animations with independent frame counts; the oracle applies to the last); encoded with "
         "KeyframeAnimationEncoder, decoded with KeyframeAnimationDecoder. Oracle on the implementation's output against "
         "the INPUT data: decode succeeds, same number of frames, timestamps under id 0 and every track under the id "
